@@ -425,7 +425,7 @@ func runC10(args []string) error {
 	r := newRng(*seed)
 	sm := newSummary("C10")
 	sm.RefMismatches = []refMismatch{}
-	nMain, nReg, maxLen := 1500, 150, 12
+	nMain, nReg, maxLen := 5000, 400, 12
 	if *tier == "thorough" {
 		nMain, nReg, maxLen = 40000, 4000, 12
 	}
